@@ -63,6 +63,30 @@ func main() {
 		fmt.Println("FOUND", st.Found)
 		os.Exit(1)
 	}
+	// timers: the 50 ms ticker may fire before the worker is done (a deviation), the 10-minute deadline never does
+	st2 := explore.Explore(explore.Config{Name: "timers", Bound: 2, CostAll: true, NewExec: func() (func(), func(*vsched.Exec) explore.Verdict) {
+		ticks, timedOut := -1, false
+		return func() {
+			done := vsched.NewChan[struct{}](0)
+			vsched.Go(func() {
+				vsched.Yield("work 1")
+				vsched.Yield("work 2")
+				done.Close()
+			})
+			ticks, timedOut = pipe.WaitWithProgress(done)
+		}, func(x *vsched.Exec) explore.Verdict {
+			v := explore.Verdict{Signature: fmt.Sprint(ticks, timedOut, x.Outcome)}
+			if timedOut || ticks < 0 || x.Outcome != vsched.OutDone {
+				v.Violation = fmt.Sprint("ticks ", ticks, " timedOut ", timedOut, " outcome ", x.Outcome, x.Blocked, x.PanicVal)
+			}
+			return v
+		}
+	}})
+	fmt.Println("timers: execs", st2.Execs, "err", st2.ToolError, "sigs", st2.Signatures)
+	if st2.Found != nil || st2.ToolError != "" || len(st2.Signatures) < 2 {
+		fmt.Println("FOUND", st2.Found, "(or the ticker never fired in any schedule)")
+		os.Exit(1)
+	}
 }
 `
 	if err := os.WriteFile(filepath.Join(prog, "main.go"), []byte(mainSrc), 0o644); err != nil {
